@@ -220,6 +220,17 @@ def load_findings(prop):
 # the generic check loop
 
 
+def _portable(obs):
+    """observations travel between processes and into replay files; a foreign object that reached the hand driver
+    (an asyncio Future, say) is replaced by its type name instead of crashing the transport"""
+    import pickle
+    try:
+        pickle.dumps(obs)
+        return obs
+    except Exception:
+        return json.loads(json.dumps(obs, default=lambda x: ["foreign-object", "%s.%s" % (type(x).__module__, type(x).__name__)]))
+
+
 def _impl_worker(args):
     modname, chunk = args
     mod = importlib.import_module(modname)
@@ -229,15 +240,17 @@ def _impl_worker(args):
     import world
     linecov.start(world.REPO)
 
+    timeout = int(getattr(mod, "CASE_TIMEOUT", CASE_TIMEOUT))
+
     def _alarm(signum, frame):
-        raise TimeoutError("case did not finish within %ds" % CASE_TIMEOUT)
+        raise TimeoutError("case did not finish within %ds" % timeout)
 
     signal.signal(signal.SIGALRM, _alarm)
     for case in chunk:
         try:
-            signal.alarm(CASE_TIMEOUT)
+            signal.alarm(timeout)
             try:
-                out.append(mod.observe(case))
+                out.append(_portable(mod.observe(case)))
             finally:
                 signal.alarm(0)
             world.flush_deferred()
